@@ -1,31 +1,73 @@
 (* SPDC::efficiencies -> spdc::efficiencies (src/spdc/efficiencies.rs) -> SPDC::counts_{coincidences, singles_signal, singles_idler}
-   -> spdc::counts_* (src/spdc/counts.rs) -> efficiencies_from_counts: the whole chain of forwarders as translated in
-   Gen/Wrappers.v, ending in the generated efficiencies_from_counts of Gen/Efficiencies.v, about which property C08 is stated.
+   -> spdc::counts_* (src/spdc/counts.rs) -> efficiencies_from_counts: the whole chain of forwarders, one generated file each
+   (Gen/W_SPDC_efficiencies.v, Gen/W_efficiencies.v, Gen/W_SPDC_counts_*.v), ending in the generated efficiencies_from_counts of
+   Gen/Efficiencies.v, about which property C08 is stated.
 
-   The order (coincidences, signal singles, idler singles) in which the three rates reach efficiencies_from_counts is pinned:
-   with signal and idler singles exchanged the signal and idler efficiencies would be exchanged. *)
-From Coq Require Import Reals Bool Lra.
-From SpdVerif Require Import Base.Rx Gen.Efficiencies Proofs.C08_efficiency Gen.Wrappers.
+   Pinned here: the callee names and the argument expressions of every call as the string lists read off the source, and the
+   definitions with every callee bound BY FIELD NAME.  The three rates reach efficiencies_from_counts in the order (coincidences, signal
+   singles, idler singles), each computed by the callee of its own name: exchanging counts_singles_signal and counts_singles_idler in
+   `efficiencies`, or two arguments of efficiencies_from_counts, breaks the reflexivity proofs below. *)
+From Coq Require Import Reals Bool Lra List String.
+From SpdVerif Require Import Base.Rx Gen.Efficiencies Proofs.C08_efficiency Gen.WrapBase.
+From SpdVerif Require Import Gen.W_efficiencies Gen.W_SPDC_efficiencies Gen.W_SPDC_counts_coincidences Gen.W_SPDC_counts_singles_signal
+  Gen.W_SPDC_counts_singles_idler.
+Import ListNotations.
 Local Open Scope R_scope.
+
+Lemma wrap_eff_sources :
+  efficiencies_callees = ["counts_coincidences"; "counts_singles_signal"; "counts_singles_idler"; "efficiencies_from_counts"]%string /\
+  efficiencies_calls =
+    [("coincidences_rate", "spdc.counts_coincidences", ["ranges"; "integrator"]);
+     ("signal_singles_rate", "spdc.counts_singles_signal", ["ranges"; "integrator"]);
+     ("idler_singles_rate", "spdc.counts_singles_idler", ["ranges"; "integrator"]);
+     ("return", "efficiencies_from_counts", ["coincidences_rate"; "signal_singles_rate"; "idler_singles_rate"])]%string /\
+  SPDC_efficiencies_calls = [("return", "super::efficiencies", ["self"; "ranges.into()"; "integrator"])]%string /\
+  SPDC_counts_coincidences_calls = [("return", "super::counts_coincidences", ["self"; "ranges.into()"; "integrator"])]%string /\
+  SPDC_counts_singles_signal_calls = [("return", "super::counts_singles_signal", ["self"; "ranges.into()"; "integrator"])]%string /\
+  SPDC_counts_singles_idler_calls = [("return", "super::counts_singles_idler", ["self"; "ranges.into()"; "integrator"])]%string.
+Proof. repeat split; reflexivity. Qed.
 
 Section Order.
 Variable obj : Type.
 Notation spdc := (spdc obj).
 
+(* the callee record of `efficiencies`, each callee under its own name *)
+Definition K_eff (cc cs ci : spdc -> obj -> obj -> obj) (efc : obj -> obj -> obj -> obj) : efficiencies_K obj :=
+  {| efficiencies_K_counts_coincidences := cc;
+     efficiencies_K_counts_singles_signal := cs;
+     efficiencies_K_counts_singles_idler := ci;
+     efficiencies_K_efficiencies_from_counts := efc |}.
+
 Lemma wrap_efficiencies_order : forall (cc cs ci : spdc -> obj -> obj -> obj) (efc : obj -> obj -> obj -> obj) (s : spdc) (ranges integrator : obj),
-  efficiencies_gen cc cs ci efc s ranges integrator =
+  efficiencies_gen (K_eff cc cs ci efc) s ranges integrator =
   efc (cc s ranges integrator) (cs s ranges integrator) (ci s ranges integrator).
 Proof. reflexivity. Qed.
 
+(* the methods SPDC::counts_* and SPDC::efficiencies hand (self, ranges.into(), integrator), in that order and unchanged, to the free
+   function of the same name *)
+Lemma wrap_counts_order : forall (f : spdc -> obj -> obj -> obj) (s : spdc) (ranges integrator : obj),
+  SPDC_counts_coincidences_gen {| SPDC_counts_coincidences_K_counts_coincidences := f |} s ranges integrator = f s ranges integrator /\
+  SPDC_counts_singles_signal_gen {| SPDC_counts_singles_signal_K_counts_singles_signal := f |} s ranges integrator = f s ranges integrator /\
+  SPDC_counts_singles_idler_gen {| SPDC_counts_singles_idler_K_counts_singles_idler := f |} s ranges integrator = f s ranges integrator /\
+  SPDC_efficiencies_gen {| SPDC_efficiencies_K_efficiencies := f |} s ranges integrator = f s ranges integrator.
+Proof. repeat split; reflexivity. Qed.
+
 (* the method SPDC::efficiencies, with the free function efficiencies as its callee and the methods SPDC::counts_* as the callees of
    that, each forwarding to the free functions cc, cs, ci of counts.rs: (self, ranges, integrator) reach them unchanged *)
-Lemma wrap_efficiencies_chain : forall (cc cs ci : spdc -> obj -> obj -> obj) (efc : obj -> obj -> obj -> obj) (s : spdc) (ranges integrator : obj),
+Definition chain (cc cs ci : spdc -> obj -> obj -> obj) (efc : obj -> obj -> obj -> obj) (s : spdc) (ranges integrator : obj) : obj :=
   SPDC_efficiencies_gen
-    (efficiencies_gen (SPDC_counts_coincidences_gen cc) (SPDC_counts_singles_signal_gen cs) (SPDC_counts_singles_idler_gen ci) efc)
-    s ranges integrator =
-  efc (cc s ranges integrator) (cs s ranges integrator) (ci s ranges integrator).
+    {| SPDC_efficiencies_K_efficiencies :=
+         efficiencies_gen (K_eff (SPDC_counts_coincidences_gen {| SPDC_counts_coincidences_K_counts_coincidences := cc |})
+                                 (SPDC_counts_singles_signal_gen {| SPDC_counts_singles_signal_K_counts_singles_signal := cs |})
+                                 (SPDC_counts_singles_idler_gen {| SPDC_counts_singles_idler_K_counts_singles_idler := ci |}) efc) |}
+    s ranges integrator.
+
+Lemma wrap_efficiencies_chain : forall (cc cs ci : spdc -> obj -> obj -> obj) (efc : obj -> obj -> obj -> obj) (s : spdc) (ranges integrator : obj),
+  chain cc cs ci efc s ranges integrator = efc (cc s ranges integrator) (cs s ranges integrator) (ci s ranges integrator).
 Proof. reflexivity. Qed.
 End Order.
+Arguments K_eff {obj}.
+Arguments chain {obj}.
 
 (* values handed around: rates, the result record, anything else (ranges, integrators, beams, ...) *)
 Inductive eff_val : Type := ERate (x : R) | EEff (e : efficiencies) | EOther (tag : nat) | EBad.
@@ -43,10 +85,7 @@ Variables cc cs ci : spdc eff_val -> eff_val -> eff_val -> R.
 Let lift (f : spdc eff_val -> eff_val -> eff_val -> R) := fun s r i => ERate (f s r i).
 
 Definition spdc_efficiencies (s : spdc eff_val) (ranges integrator : eff_val) : eff_val :=
-  SPDC_efficiencies_gen
-    (efficiencies_gen (SPDC_counts_coincidences_gen (lift cc)) (SPDC_counts_singles_signal_gen (lift cs))
-                      (SPDC_counts_singles_idler_gen (lift ci)) crate_efficiencies_from_counts)
-    s ranges integrator.
+  chain (lift cc) (lift cs) (lift ci) crate_efficiencies_from_counts s ranges integrator.
 
 Theorem wrap_efficiencies_model : forall s ranges integrator,
   spdc_efficiencies s ranges integrator =
@@ -80,6 +119,8 @@ Proof.
 Qed.
 End OnModel.
 
+Print Assumptions wrap_eff_sources.
+Print Assumptions wrap_counts_order.
 Print Assumptions wrap_efficiencies_order.
 Print Assumptions wrap_efficiencies_chain.
 Print Assumptions wrap_efficiencies_model.
